@@ -78,13 +78,15 @@ CHECKS = {
         ref="6 C05"),
     "C06": dict(
         text="Coq: the seven counters equal the numbers of operations in the trace for every policy set and history, both "
-             "integrators (C06_rosenbrock_counters_equal_operations, be_ok). The clause 'Converged only if the whole "
+             "integrators (C06_rosenbrock_counters_equal_operations, be_ok); final_time_ is exactly the ordered sum of the step "
+             "sizes of the accepted attempts, however the Solve ends (C06_rosenbrock_final_time_is_sum_of_accepted_steps). The clause 'Converged only if the whole "
              "interval was integrated' is REFUTED on the faithful model (C06_converged_without_progress_refuted, witness by "
              "vm_compute) and replayed on the implementation: recorded as known findings. Tie and oracle as C05 with time "
              "steps down to 2^-60 and continuation remainders; the oracle checks counters against the calls the policies "
              "saw, 0 <= final_time <= time_step, Converged => interval covered, final_time = sum of accepted steps. A "
              "backward-Euler overshoot (h_start > time_step) found by the oracle is fixed in the repository (fix: bba10e6).",
-        note="PARTIAL: time bounds and termination are checked by the oracle and the tie, not yet theorems. Known findings in "
+        note="PARTIAL: 0 <= final_time <= time_step, termination and 'the State holds the solution at final_time' are checked by "
+             "the oracles and the tie, not theorems. Known findings in "
              "KNOWN_FINDINGS.txt (absolute round_off in the loop guard).",
         technique="Coq proof (counter invariants; refutation witness by vm_compute) + scripted-policy tie + oracle",
         ref="6 C06"),
